@@ -45,6 +45,46 @@ for k, v in enumerate(data["values"]):
     else:
         out["self_dec"].append(("err", "no encoding"))
         out["self_dec_bytes"].append(("err", "no encoding"))
+# call history on the decode side: decode, scribble on every nested container of what came back, decode the very same
+# text again - the second value must be the encoded one (nothing decoded earlier may be shared with later results)
+def scribble(x, depth=0):
+    if depth > 8:
+        return
+    if isinstance(x, list):
+        for item in x:
+            scribble(item, depth + 1)
+        x.append("scribbled")
+    elif isinstance(x, dict):
+        for item in list(x.values()):
+            scribble(item, depth + 1)
+        x["scribbled"] = True
+
+
+out["redecode"] = []
+for k, v in enumerate(data["values"]):
+    e = out["enc"][k]
+    if k % 3 or e[0] != "ok" or not isinstance(v, (list, dict)):
+        out["redecode"].append(None)
+        continue
+    def twice(text=e[1]):
+        first_val = fast_json.loads(text)
+        scribble(first_val)
+        again = fast_json.loads(text)
+        first_b = fast_json.loads(text.encode("utf-8"))
+        scribble(first_b)
+        return again, fast_json.loads(text.encode("utf-8"))
+    out["redecode"].append(attempt(twice))
+    # and on the encode side: encode, edit the object in place, encode again - the second text must describe the
+    # object as it is now
+    def reencode(v=v):
+        import copy
+        w = copy.deepcopy(v)
+        fast_json.dumps(w)
+        scribble(w)
+        return fast_json.loads(fast_json.dumps(w)) == w
+    r = attempt(reencode)
+    if r != ("ok", True):
+        out["redecode"][-1] = ("err", "encode after in-place edit: " + repr(r)[:150])
 # file API: dump()/load() on text and on binary files (every 7th value keeps the cost low)
 import io  # noqa: E402
 out["file_text"], out["file_binary"] = [], []
